@@ -22,7 +22,16 @@ RULE = ("(purity) seeded random documents x paths of every segment kind (keys, i
         "segments'; missing negative / zero / positive digit keys), through "
         "get_nodes(mustexist=False, default_value=v) and set_value(v, format): the whole document afterwards must equal the Lean model "
         "createPath; directly on the real code: the path then resolves to exactly one node holding the value and every pre-existing "
-        "node that is not an ancestor of the created spine is unchanged.  distinct_nontrivial = distinct (document, path) pairs whose "
+        "node that is not an ancestor of the created spine is unchanged.  Tails also start with a NEGATIVE index below the list (idx < -len, written [n] or as a bare "
+        "key): when the model refuses and the implementation goes ahead and changes the document, the path must resolve afterwards and "
+        "no pre-existing node may change.  Real code only: (merge keys) c03.gen_merge_text documents x a key that a mapping (75 % with "
+        "`<<`) neither owns nor inherits + 0-2 further missing segments, set_value and get_nodes(mustexist=False): the PHYSICAL "
+        "document (own keys per mapping in order, merge references, sequences, anchors) is the original plus exactly the new own key at "
+        "the end of that mapping, and the path resolves to the value; (fan-out) an Array of 2-4 Hashes, each holding 0-2 intermediate "
+        "Hashes, whose LAST key exists below some elements and is missing below others (also all / none) x `servers.net.port`, "
+        "`servers.*.net.port`, slices, `/servers/net/port`, searches `servers[name=~/./].port` x set_value / optional get_nodes: every "
+        "instance servers[i]...last resolves to the value (set) or keeps its value / holds the default (get), new keys at the end of "
+        "their Hash, nothing else changed.  distinct_nontrivial = distinct (document, path) pairs whose "
         "query matched >= 1 node (purity) or whose creation added >= 1 node.")
 
 
